@@ -18,13 +18,27 @@ HISTORY = {"refused inputs parsed just before another parse": 0}
 HISTORY_RATE = [0.04]      # raised by the harness when an obligation broke / the source changed (escalated search)
 
 
-def impl_parse(q, entry="module", history=True):
+def impl_parse(q, entry=None, history=True):
     """-> {"ok": tree json} | {"err": [class, message]} (any exception class is reported).
     history: now and then an input that is refused (before its first element, or in the middle of a construct) goes
     through the same entry point just before -- whatever a parse that gave up leaves behind (a mode of the lexer,
     pending blanks, a flag) must not reach the next parse, wherever in a check that next parse happens (seeded C13-G,
     C17-F: the parse of a PRINTED form right after a refused input)"""
     I = common.impl()
+    if entry is None:
+        # the two entry points are interchangeable (C04): a check that does not care gets either
+        entry = "thread" if _hist_rng.random() < 0.3 else "module"
+    if history and _hist_rng.random() < HISTORY_RATE[0] * 0.75:
+        # ... or the SAME text was parsed a moment ago and the caller edited the tree it got in place: every parse hands
+        # out a tree of its own (seeded C03-H, C13-H: results memoised by text, in either entry point)
+        HISTORY["the same text parsed just before, that result edited in place"] = \
+            HISTORY.get("the same text parsed just before, that result edited in place", 0) + 1
+        try:
+            t0 = I.thread.parse(q) if entry == "thread" else I.parser.parser.parse(q, lexer=I.parser.lexer)
+            if t0 is not None and isinstance(t0, I.tree.Item):
+                scribble(t0)
+        except Exception:  # noqa
+            pass
     if history and _hist_rng.random() < HISTORY_RATE[0]:
         HISTORY["refused inputs parsed just before another parse"] += 1
         try:
